@@ -1,5 +1,5 @@
 """C02 — type soundness: structural necessary conditions (DESIGN §4 C02)."""
-from hir import nodes, walk, fn_body, callee, last, line_of, peel, pp, norm_path, pat_alternatives, pat_variant, pat_bindings
+from hir import nodes, walk, fn_body, callee, last, line_of, peel, pp, norm_path, pat_alternatives, pat_variant, pat_bindings, pat_strip
 from engines import matches_on, arm_alternatives, ty_is
 from flow import Flow
 import tc
@@ -598,6 +598,7 @@ def value_paths(F, rep):
                "that has `ret`s somewhere but can also run off its end: `f :: fn c: bool -> int do loop c do ret 1 end end` "
                "returns nil for f(false)", line_of(arm))
     trailing_value_is_the_return(F, rep, "VALUE-PATH")
+    end_unreachable(F, rep, "VALUE-PATH")
     # (3) the quotient of a division is only tied to the dividend by a constraint stored on the quotient
     back = False
     for c in nodes(fn_body(fexpr), "MethodCall"):
@@ -615,3 +616,227 @@ def value_paths(F, rep):
            "`c := a / 2` records DivRes(a) on the quotient only; when `a` becomes known later (a parameter at a call) nothing "
            "revisits the quotient, which stays Unknown: `g :: fn a do c := a / 2  d := c + \"px\" end` with g(4) is accepted",
            fexpr["sp"])
+
+
+# --------------------------------------------------------------------------- "the end of these statements is not reached"
+
+def end_unreachable(F, rep, rule):
+    """The guards of (1) and (2) are lifted for a body whose end `cannot be reached`: every function
+    `(&[Statement]) -> bool` of the checker that the Function / If / Case arms consult must answer `true` only for a reason
+    that really keeps control from the end of the list.  Reviewed reasons, per kind of the *last* statement:
+      ret, <!>, break, continue        - always
+      a block                          - its own statements do not reach their end
+      if                               - there is an else branch and no branch reaches its end
+      case                             - no branch reaches its end, and neither does the else (when there is one)
+    Every other answer (a loop, a definition ..) is reported: nothing else is decided here."""
+    fexpr = F.fn(TC + "expression")
+    preds = set()
+    for c in nodes(fn_body(fexpr), "Call"):
+        cal = callee(c)
+        if not cal or not cal.startswith("sylt_compiler::"):
+            continue
+        try:
+            g = F.fn(cal)
+        except Exception:
+            continue
+        if g.get("ret") == "bool" and len(g["params"]) == 1 and "[sylt_compiler::name_resolution::Statement]" in g["params"][0]["ty"]:
+            preds.add(cal)
+    n = 0
+    for cal in sorted(preds):
+        g = F.fn(cal)
+        rep.analysed(g)
+        n += _end_unreachable_fn(F, rep, rule, g, cal)
+    rep.floor(rule, "answers of the end-not-reached predicate examined", n, 6)
+
+
+def _conj(e, self_path, fl):
+    """what is known when the boolean e is true: None = e is never true; else a set of atoms"""
+    e = peel(e)
+    k = e.get("k")
+    if k == "Lit":
+        return set() if e.get("v") is True else (None if e.get("v") is False else {("?", pp(e))})
+    if k == "Binary" and e.get("op") == "And":
+        a, b = _conj(e["l"], self_path, fl), _conj(e["r"], self_path, fl)
+        return None if a is None or b is None else a | b
+    if k == "Binary" and e.get("op") == "Or":
+        a, b = _conj(e["l"], self_path, fl), _conj(e["r"], self_path, fl)
+        if a is None:
+            return b
+        if b is None:
+            return a
+        return a & b
+    if k == "Call" and callee(e) == self_path:
+        return {("END-NOT-REACHED", _field_of(e["args"][0], fl))}
+    if k == "MethodCall":
+        m = e["m"]
+        clo = [a for a in e["args"] if a.get("k") == "Closure"]
+        if m == "all" and clo:
+            inner = _conj(clo[0]["body"], self_path, fl)
+            base = _field_of(tc._iter_base(e["recv"]), fl)
+            if inner is None:
+                return {("EMPTY", base)}
+            return {("ALL", base, a) for a in inner}
+        if m == "unwrap_or" or m == "map_or":
+            dflt = peel(e["args"][0])
+            dv = dflt.get("v") if dflt.get("k") == "Lit" else "?"
+            if m == "unwrap_or":
+                r = peel(e["recv"])
+                mapped = r if (r.get("k") == "MethodCall" and r["m"] == "map") else None
+                f_clo = [a for a in (mapped or {}).get("args", []) if a.get("k") == "Closure"]
+                src = mapped["recv"] if mapped else None
+            else:
+                f_clo = clo
+                src = e["recv"]
+            if not f_clo or src is None:
+                return {("?", pp(e)[:60])}
+            inner = _conj(f_clo[0]["body"], self_path, fl)
+            src_p = peel(src)
+            while src_p.get("k") == "MethodCall" and src_p["m"] in ("as_ref", "as_deref", "iter"):
+                src_p = peel(src_p["recv"])
+            if src_p.get("k") == "MethodCall" and src_p["m"] == "last":
+                what = ("LAST", _field_of(src_p["recv"], fl))
+            else:
+                what = ("OPT", _field_of(src_p, fl))
+            out = set()
+            if inner is not None:
+                out |= {(what[0] + ("-OR-ABSENT" if dv is True else ""), what[1], a) for a in inner}
+            elif dv is True:
+                out.add((what[0] + "-ABSENT", what[1]))
+            else:
+                return None
+            if dv not in (True, False):
+                return {("?", pp(e)[:60])}
+            return out
+        if m == "is_none":
+            return {("IS-NONE", _field_of(e["recv"], fl))}
+        if m == "is_some":
+            return {("IS-SOME", _field_of(e["recv"], fl))}
+    if k == "Unary" and e.get("op") == "Not":
+        return {("NOT", pp(e["e"])[:60])}
+    if k == "Match":
+        return {("?", "match")}
+    return {("?", pp(e)[:60])}
+
+
+def _field_of(e, fl):
+    """name of the pattern field / record field the expression denotes (the binding's origin, not its spelling)"""
+    e = peel(e)
+    if e.get("k") == "Field":
+        return e["name"]
+    if e.get("k") == "Path" and e.get("res") == "Local":
+        o = fl.origin.get(e["hid"])
+        if o:
+            for el in reversed(o.get("path") or []):
+                if el[0] in ("field", "vfield"):
+                    return el[2] if len(el) > 2 else el[1]
+            if o["kind"] in ("closure", "for") and o.get("src") is not None:
+                return _field_of(tc._iter_base(o["src"]), fl)
+        return e.get("name")
+    if e.get("k") == "MethodCall" and e["m"] in ("as_ref", "iter", "as_slice", "as_deref"):
+        return _field_of(e["recv"], fl)
+    return pp(e)[:40]
+
+
+END_REASONS = {
+    "Ret": [], "Unreachable": [], "Break": [], "Continue": [],
+    "Block": [("END-NOT-REACHED", "statements")],
+}
+EXPR_REASONS = {
+    # an else branch exists (the last condition is absent) and every branch's body does not reach its end
+    "If": [("LAST", "branches", ("IS-NONE", "condition")), ("ALL", "branches", ("END-NOT-REACHED", "body"))],
+    "Case": [("ALL", "branches", ("END-NOT-REACHED", "body")), ("OPT-OR-ABSENT", "fall_through", ("END-NOT-REACHED", "fall_through"))],
+}
+
+
+def _end_unreachable_fn(F, rep, rule, g, cal):
+    fl = Flow(g, fn_body(g))
+    name = last(cal)
+    n = 0
+    top = [m for m in nodes(fn_body(g), "Match") if "name_resolution::Statement" in (m.get("scrut_ty") or "")]
+    if not top:
+        rep.ob(rule, "%s|shape" % name, False, "%s decides whether the end of a statement list is reached, but not by a case "
+               "split on a statement: its answers cannot be examined" % name, g["sp"])
+        return 0
+    m = top[0]
+    scr = peel(m["scrut"])
+    on_last = scr.get("k") == "MethodCall" and scr["m"] == "last"
+    rep.ob(rule, "%s|looks-at-the-last-statement" % name, on_last,
+           "the verdict is about the last statement of the list" if on_last else
+           "%s does not look at the *last* statement of the list (`%s`): a diverging statement elsewhere says nothing about "
+           "whether the end is reached" % (name, pp(scr)[:60]), line_of(m))
+
+    def strip_some(p):
+        p = pat_strip(p)
+        if p.get("k") == "TupleStruct" and (p.get("path") or "").endswith("Option::Some") and p.get("pats"):
+            return pat_strip(p["pats"][0])
+        return p
+
+    def judge(vname, body, table, where, label):
+        nonlocal n
+        got = _conj(body, cal, fl)
+        n += 1
+        if got is None:
+            rep.ob(rule, "%s|%s|%s" % (name, label, vname), True, "after a `%s` the end counts as reachable" % vname, where)
+            return
+        need = table.get(vname)
+        if need is None:
+            rep.ob(rule, "%s|%s|%s" % (name, label, vname), False,
+                   "%s answers that the end of a statement list ending in a `%s` is not reached (when: %s). No reviewed reason "
+                   "covers that kind of statement: if the answer is wrong for one program, a function with a declared return type "
+                   "is accepted although it can run off its end and return nil" % (
+                       name, vname, " and ".join(sorted(str(a) for a in got)) or "always"), where)
+            return
+        missing = [r for r in need if not _has(got, r)]
+        rep.ob(rule, "%s|%s|%s" % (name, label, vname), not missing,
+               "`%s`: the end is not reached only when %s" % (vname, "; ".join(_say(r) for r in need) or "- always") if not missing else
+               "%s answers that the end is not reached after a `%s` without requiring that %s" % (
+                   name, vname, "; ".join(_say(r) for r in missing)), where)
+
+    for arm in m["arms"]:
+        for alt in pat_alternatives(arm["pat"]):
+            a = strip_some(alt)
+            vp = pat_variant(a)
+            if vp is None:
+                got = _conj(arm["body"], cal, fl)
+                n += 1
+                rep.ob(rule, "%s|statement|_" % name, got is None,
+                       "every other kind of last statement counts as reaching the end" if got is None else
+                       "the catch-all arm of %s does not answer `false`: statements of kinds nobody looked at count as never "
+                       "reaching the end" % name, line_of(arm))
+                continue
+            v = last(vp)
+            if v == "StatementExpression":
+                inner = [mm for mm in nodes(arm["body"], "Match") if "name_resolution::Expression" in (mm.get("scrut_ty") or "")]
+                if not inner:
+                    judge(v, arm["body"], END_REASONS, line_of(arm), "statement")
+                    continue
+                for arm2 in inner[0]["arms"]:
+                    for alt2 in pat_alternatives(arm2["pat"]):
+                        vp2 = pat_variant(pat_strip(alt2))
+                        if vp2 is None:
+                            got = _conj(arm2["body"], cal, fl)
+                            n += 1
+                            rep.ob(rule, "%s|expression|_" % name, got is None,
+                                   "every other kind of expression statement counts as reaching the end" if got is None else
+                                   "the catch-all arm over expression statements does not answer `false`", line_of(arm2))
+                        else:
+                            judge(last(vp2), arm2["body"], EXPR_REASONS, line_of(arm2), "expression")
+            else:
+                judge(v, arm["body"], END_REASONS, line_of(arm), "statement")
+    return n
+
+
+def _has(got, need):
+    return need in got
+
+
+def _say(r):
+    if r[0] == "END-NOT-REACHED":
+        return "its `%s` do not reach their end" % r[1]
+    if r[0] == "ALL":
+        return "every one of the `%s` satisfies: %s" % (r[1], _say(r[2]))
+    if r[0] == "LAST":
+        return "the last of the `%s` has no `%s` (an else branch)" % (r[1], r[2][1]) if r[2][0] == "IS-NONE" else str(r)
+    if r[0] == "OPT-OR-ABSENT":
+        return "the `%s`, when present, satisfies: %s" % (r[1], _say(r[2]))
+    return str(r)
